@@ -1,4 +1,8 @@
 import RbV.Ref.BS
+import RbV.Model.LFMapping
+import RbV.Model.LFSortedCheck
+import RbV.Model.SampledSA
+import RbV.Model.SampleBuild
 /-!
 # C05 — FM-index backward search returns exactly the pattern's occurrences
 
@@ -130,5 +134,129 @@ example : checkBS txt sa [1, 5] .absent = true := by decide
 example : checkBS txt sa [1, 2] .absent = false := by decide
 example : BSProp txt sa [4, 1] (.complete 6 7) := (checkBS_iff txt sa [4, 1] (by decide) _).mp (by decide)
 end examples
+
+/-! ## [B] mirror model of `backward_search` and the LF-mapping argument
+
+`BSModel.backwardSearch less occ n pat` (`RbV/Model/BackwardSearch.lean`) follows the Rust function line by line over
+abstract `less`/`occ`; `LF.lessRef`, `LF.occRef`, `LF.bwtOf` (`RbV/Model/LFMapping.lean`) are the values the index
+components hold for the BWT of `(t, sa)`.  `LF.Sorted t sa a` is the sortedness hypothesis, a conjunction of bounded
+(hence decidable) statements about `(t, sa, a)`: `sa` is a permutation of the positions, rows are ordered by first
+symbol, two rows starting with `a` are ordered like the rows of the following positions, and the text does not end
+in `a`.  Every suffix array in the sense of C03 (any consistent order of the sentinels) satisfies it for every
+non-sentinel symbol; nothing is assumed about the order among the sentinel rows. -/
+
+/-- **LF-mapping lemma**: on a sorted array, if row `x` starts with `a` and row `z` holds the next text position,
+then `x = less(a) + #{rows before z whose BWT symbol is a}` -/
+theorem lf_mapping (t sa : List Nat) (a x z : Nat) (hs : LF.Sorted t sa a) (hx : x < sa.length) (hz : z < sa.length)
+    (hxa : t.getD (sa.getD x 0) 0 = a) (hzx : sa.getD z 0 = sa.getD x 0 + 1) :
+    x = LF.lessRef (LF.bwtOf t sa) a + LF.occLt (LF.bwtOf t sa) z a :=
+  LF.lf_mapping hs x z hx hz hxa hzx
+
+/-- **interval refinement**: the rows whose suffix starts with `a·P` are
+`less a + occ(a, lo-1) … less a + occ(a, hi-1) - 1` when `lo … hi-1` are the rows whose suffix starts with `P` -/
+theorem lf_step (t sa : List Nat) (a : Nat) (hs : LF.Sorted t sa a) :
+    BSModel.LFStep t sa (LF.lessRef (LF.bwtOf t sa)) (LF.occRef (LF.bwtOf t sa)) a :=
+  LF.lfStep_of_sorted hs
+
+/-- loop-invariant part, for *any* `less`/`occ` that provide the LF step (last non-empty interval, matched length,
+completeness flag) -/
+theorem backward_search_correct_of_LF (t sa pat : List Nat) (less : Nat → Nat) (occ : Nat → Nat → Nat)
+    (hp : pat ≠ []) (hn : 0 < sa.length)
+    (hrange : ∀ row, row < sa.length → sa.getD row 0 ≤ t.length)
+    (hs : BSModel.Surj t sa) (hless : ∀ a ∈ pat, 1 ≤ less a) (hLF : ∀ a ∈ pat, BSModel.LFStep t sa less occ a) :
+    BSProp t sa pat (BSModel.backwardSearch less occ sa.length pat) :=
+  BSModel.backwardSearch_correct_of_LF t sa pat less occ hp hn hrange hs hless hLF
+
+/-- **`backward_search` is correct** for every text ending in a symbol smaller than all pattern symbols (one or
+many sentinels), every array sorted in the sense above, and every non-empty pattern: the mirror model's result
+satisfies the property statement -/
+theorem backward_search_correct (t sa pat : List Nat) (hp : pat ≠ []) (hn : 0 < t.length)
+    (hsent : ∀ a ∈ pat, t.getD (t.length - 1) 0 < a)
+    (hsorted : ∀ a ∈ pat, LF.Sorted t sa a) :
+    BSProp t sa pat
+      (BSModel.backwardSearch (LF.lessRef (LF.bwtOf t sa)) (LF.occRef (LF.bwtOf t sa)) sa.length pat) :=
+  LF.backwardSearch_correct t sa pat hp hn hsent hsorted
+
+/-- the same with the sortedness hypothesis given as the Boolean `LF.sortedAllB t sa` (permutation test plus
+conditions on adjacent rows only), which the driver evaluates on the array the implementation printed -/
+theorem backward_search_correct_decidable (t sa pat : List Nat) (hp : pat ≠ []) (hn : 0 < t.length)
+    (hsent : ∀ a ∈ pat, t.getD (t.length - 1) 0 < a)
+    (hsorted : LF.sortedAllB t sa = true) :
+    BSProp t sa pat
+      (BSModel.backwardSearch (LF.lessRef (LF.bwtOf t sa)) (LF.occRef (LF.bwtOf t sa)) sa.length pat) :=
+  backward_search_correct t sa pat hp hn hsent
+    (fun a ha => LF.sortedAllB_sound t sa hsorted a (Nat.ne_of_lt (hsent a ha)))
+
+example : BSProp [3, 1, 4, 4, 1, 2, 1, 0] [7, 6, 4, 1, 5, 0, 3, 2] [3, 4, 1, 2, 1]
+    (BSModel.backwardSearch (LF.lessRef (LF.bwtOf [3, 1, 4, 4, 1, 2, 1, 0] [7, 6, 4, 1, 5, 0, 3, 2]))
+      (LF.occRef (LF.bwtOf [3, 1, 4, 4, 1, 2, 1, 0] [7, 6, 4, 1, 5, 0, 3, 2])) 8 [3, 4, 1, 2, 1]) :=
+  backward_search_correct_decidable _ _ _ (by decide) (by decide) (by decide) (by decide)
+
+/-- **positions resolved through a sampled suffix array**: the mirror model of `SampledSuffixArray::get` (LF walk to
+the next sampled row, or to a row whose BWT symbol is the sentinel, for which `sample` stores an extra entry) returns
+`sa[index]` for every row, every sampling rate `s` and every text with one or many sentinels, provided the array
+passes `sortedAllB` and the stored samples / extra rows hold what `SuffixArray::sample` puts there.  Hence
+`Interval::occ` gives the same positions through the sampled array as through the full one. -/
+theorem sampled_get_correct (t sa : List Nat) (s : Nat) (sampleGet extraGet : Nat → Nat)
+    (hsorted : LF.sortedAllB t sa = true)
+    (hsample : ∀ pos, pos < sa.length → pos % s = 0 → sampleGet (pos / s) = sa.getD pos 0)
+    (hextra : ∀ pos, pos < sa.length → pos % s ≠ 0 →
+      (LF.bwtOf t sa).getD pos 0 = t.getD (t.length - 1) 0 → extraGet pos = sa.getD pos 0)
+    (index : Nat) (hi : index < sa.length) :
+    SampledModel.get s (LF.bwtOf t sa) (t.getD (t.length - 1) 0) (LF.lessRef (LF.bwtOf t sa))
+      (LF.occRef (LF.bwtOf t sa)) sampleGet extraGet sa.length index = some (sa.getD index 0) := by
+  have hperm : sa.Perm (List.range t.length) := by
+    simp only [LF.sortedAllB, Bool.and_eq_true] at hsorted
+    exact List.isPerm_iff.mp hsorted.1
+  exact SampledModel.get_correct t sa s sampleGet extraGet
+    (fun a ha => LF.sortedAllB_sound t sa hsorted a (Ne.symm ha)) hperm hsample hextra index hi
+
+-- GATTACA$, sampling rate 3: row 4 (position 5) is reached from the sample of row 6 … every row gives sa[row]
+example : (List.range 8).map (fun i => SampledModel.get 3 (LF.bwtOf [3, 1, 4, 4, 1, 2, 1, 0] [7, 6, 4, 1, 5, 0, 3, 2]) 0
+      (LF.lessRef (LF.bwtOf [3, 1, 4, 4, 1, 2, 1, 0] [7, 6, 4, 1, 5, 0, 3, 2]))
+      (LF.occRef (LF.bwtOf [3, 1, 4, 4, 1, 2, 1, 0] [7, 6, 4, 1, 5, 0, 3, 2]))
+      (fun q => [7, 6, 4, 1, 5, 0, 3, 2].getD (q * 3) 0) (fun _ => 0) 8 i)
+    = [7, 6, 4, 1, 5, 0, 3, 2].map some := by decide
+
+/-- … and with the stored data produced by the mirror model of `SuffixArray::sample` itself (`SampledModel.build`:
+`sample` vector and `extra_rows` map after the construction loop) no hypothesis about the stored values is left:
+construction followed by `get` returns `sa[index]` for every row, every sampling rate `s ≥ 1`, on every array
+passing `sortedAllB` -/
+theorem sampled_array_correct (t sa : List Nat) (s : Nat) (hs : 0 < s)
+    (hsorted : LF.sortedAllB t sa = true) (index : Nat) (hi : index < sa.length) :
+    SampledModel.get s (LF.bwtOf t sa) (t.getD (t.length - 1) 0) (LF.lessRef (LF.bwtOf t sa))
+      (LF.occRef (LF.bwtOf t sa))
+      (SampledModel.sampleGet (SampledModel.build sa (LF.bwtOf t sa) s (t.getD (t.length - 1) 0) sa.length).1)
+      (SampledModel.extraGet (SampledModel.build sa (LF.bwtOf t sa) s (t.getD (t.length - 1) 0) sa.length).2)
+      sa.length index = some (sa.getD index 0) :=
+  sampled_get_correct t sa s _ _ hsorted
+    (fun pos hpos hm => SampledModel.build_sample sa _ s _ hs sa.length pos hpos hm)
+    (fun pos hpos hm hb => SampledModel.build_extra sa _ s _ sa.length pos hpos hm hb)
+    index hi
+
+-- two sequences "A$A$" (A=1, $=0), sampling rate 2: row 1 is not sampled and its BWT symbol is the sentinel → extra row
+example : SampledModel.build [3, 1, 2, 0] (LF.bwtOf [1, 0, 1, 0] [3, 1, 2, 0]) 2 0 4 = ([3, 2], [(3, 0)]) := by decide
+
+/-- … hence accepted by the oracle: on a sorted index the checker and the mirror model agree -/
+theorem model_accepted (t sa pat : List Nat) (hp : pat ≠ []) (hn : 0 < t.length)
+    (hsent : ∀ a ∈ pat, t.getD (t.length - 1) 0 < a)
+    (hsorted : ∀ a ∈ pat, LF.Sorted t sa a) :
+    checkBS t sa pat
+      (BSModel.backwardSearch (LF.lessRef (LF.bwtOf t sa)) (LF.occRef (LF.bwtOf t sa)) sa.length pat) = true :=
+  (checkBS_iff t sa pat hp _).mpr (backward_search_correct t sa pat hp hn hsent hsorted)
+
+section model_examples
+/-- "GATTACA$" with $=0, A=1, C=2, G=3, T=4 and its suffix array -/
+private def txt' : List Nat := [3, 1, 4, 4, 1, 2, 1, 0]
+private def sa' : List Nat := [7, 6, 4, 1, 5, 0, 3, 2]
+-- the mirror model on the repo's test cases: GATTACA complete, GTACA partial (4), and an absent symbol
+example : BSModel.backwardSearch (LF.lessRef (LF.bwtOf txt' sa')) (LF.occRef (LF.bwtOf txt' sa')) 8 [3, 1, 4, 4, 1, 2, 1]
+    = .complete 5 6 := by decide
+example : BSModel.backwardSearch (LF.lessRef (LF.bwtOf txt' sa')) (LF.occRef (LF.bwtOf txt' sa')) 8 [3, 4, 1, 2, 1]
+    = .part 6 7 4 := by decide
+example : BSModel.backwardSearch (LF.lessRef (LF.bwtOf txt' sa')) (LF.occRef (LF.bwtOf txt' sa')) 8 [1, 5]
+    = .absent := by decide
+example : LF.bwtOf txt' sa' = [1, 2, 4, 3, 1, 0, 4, 1] := by decide
+end model_examples
 
 end RbV.Thm.C05
